@@ -21,6 +21,24 @@ type WKBOpts struct {
 	// NaNEmptyPoint encodes an empty point as all-NaN ordinates (always the case in
 	// EWKB; in WKB only in the GeoPackage mode).  Without it an empty point is an error.
 	NaNEmptyPoint bool
+	// Limits, if set, are per-level element limits applied by the reader the way
+	// the format's decoders are documented to apply them (-1 = unlimited).
+	Limits *[4]int
+}
+
+// TooLarge is returned by the reader for a count field above the limit of its level.
+type TooLarge struct{ Level, N, Limit int }
+
+func (e *TooLarge) Error() string {
+	return fmt.Sprintf("ref: %d elements at level %d exceed the limit %d", e.N, e.Level, e.Limit)
+}
+
+// Unbacked is returned for a count field that claims more elements than the
+// remaining input could hold, at a level without a configured limit.
+type Unbacked struct{ Level, N int }
+
+func (e *Unbacked) Error() string {
+	return fmt.Sprintf("ref: count %d at level %d is not backed by input", e.N, e.Level)
 }
 
 // Field locates one header field inside an encoding (used by the forgers of C04).
@@ -239,6 +257,31 @@ func (r *wkbReader) u32(bo binary.ByteOrder) (uint32, error) {
 	return v, nil
 }
 
+// cnt reads a count field: the limit of its level is checked first, then whether
+// the remaining input could hold that many elements of at least minSize bytes.
+func (r *wkbReader) cnt(bo binary.ByteOrder, level, minSize int) (uint32, error) {
+	n, err := r.u32(bo)
+	if err != nil {
+		return 0, err
+	}
+	limited := false
+	if r.o.Limits != nil && level > 0 {
+		if lim := r.o.Limits[level]; lim >= 0 {
+			limited = true
+			if int(n) > lim {
+				return 0, &TooLarge{Level: level, N: int(n), Limit: lim}
+			}
+		}
+	}
+	// (small unbacked counts allocate next to nothing and are plain truncations)
+	if need := uint64(n) * uint64(minSize); !limited && need > uint64(len(r.b)-r.pos) && need > 2048 {
+		return 0, &Unbacked{Level: level, N: int(n)}
+	}
+	// a count within its limit that the input cannot back is an ordinary
+	// truncation: parsing goes on and fails where the data runs out
+	return n, nil
+}
+
 func (r *wkbReader) coord(bo binary.ByteOrder, stride int) ([]float64, error) {
 	if err := r.need(8 * stride); err != nil {
 		return nil, err
@@ -252,7 +295,7 @@ func (r *wkbReader) coord(bo binary.ByteOrder, stride int) ([]float64, error) {
 }
 
 func (r *wkbReader) coordList(bo binary.ByteOrder, stride int) ([][]float64, error) {
-	n, err := r.u32(bo)
+	n, err := r.cnt(bo, 1, stride*8)
 	if err != nil {
 		return nil, err
 	}
@@ -365,14 +408,15 @@ func (r *wkbReader) geom(depth int) (*model.G, error) {
 		}
 	case 3:
 		g.Kind = model.Polygon
-		n, err := r.u32(bo)
+		n, err := r.cnt(bo, 2, 4)
 		if err != nil {
 			return nil, err
 		}
-		if uint64(n)*4 > uint64(len(r.b)-r.pos) {
-			return nil, errShort
+		ringCap := int(n)
+		if max := (len(r.b)-r.pos)/4 + 1; ringCap > max {
+			ringCap = max
 		}
-		g.C2 = make([][][]float64, 0, n)
+		g.C2 = make([][][]float64, 0, ringCap)
 		for i := uint32(0); i < n; i++ {
 			l, err := r.coordList(bo, stride)
 			if err != nil {
@@ -381,23 +425,30 @@ func (r *wkbReader) geom(depth int) (*model.G, error) {
 			g.C2 = append(g.C2, l)
 		}
 	case 4, 5, 6, 7:
-		n, err := r.u32(bo)
+		lvl := map[uint32]int{4: 1, 5: 2, 6: 3, 7: 0}[code]
+		if code == 7 && r.o.EWKB {
+			lvl = 1
+		}
+		// the decoders allocate nothing proportional to a multi/collection count up
+		// front, so an unbacked count there is an ordinary truncation, not a hazard
+		n, err := r.cnt(bo, lvl, 0)
 		if err != nil {
 			return nil, err
 		}
-		if uint64(n)*5 > uint64(len(r.b)-r.pos) {
-			return nil, errShort
+		capHint := int(n)
+		if max := (len(r.b)-r.pos)/5 + 1; capHint > max {
+			capHint = max
 		}
 		switch code {
 		case 4:
 			g.Kind = model.MultiPoint
-			g.C1 = make([][]float64, 0, n)
+			g.C1 = make([][]float64, 0, capHint)
 		case 5:
 			g.Kind = model.MultiLineString
-			g.C2 = make([][][]float64, 0, n)
+			g.C2 = make([][][]float64, 0, capHint)
 		case 6:
 			g.Kind = model.MultiPolygon
-			g.C3 = make([][][][]float64, 0, n)
+			g.C3 = make([][][][]float64, 0, capHint)
 		case 7:
 			g.Kind = model.Collection
 		}
